@@ -1,6 +1,6 @@
 """Sidecar contracts.  Importing this package registers every contract, class declaration and ghost."""
 from pyvc.spec import contract, macro
-from pyvc.state import declare_class, ghost
+from pyvc.state import declare_class, ghost, axiom
 from pyvc.execexpr import global_object, order_key
 import importlib, pkgutil, os
 for _m in sorted(m.name for m in pkgutil.iter_modules([os.path.dirname(__file__)])):
